@@ -1,29 +1,10 @@
 import Lean.Data.Json
-import DrummerVerif.Model.Wgl
+import DrummerVerif.Model.Etcd
 open Lean WGL
 
 def jn (j : Json) (k : String) : Nat := (j.getObjValAs? Nat k).toOption.getD 0
 def jb (j : Json) (k : String) : Bool := (j.getObjValAs? Bool k).toOption.getD false
 def ja (j : Json) (k : String) : Array Json := ((j.getObjVal? k).toOption.bind (·.getArr?.toOption)).getD #[]
-
-structure Op where
-  mk ::
-  op : Nat
-  a1 : Int
-  a2 : Int
-  ok : Bool
-  ex : Bool
-  val : Int
-  unk : Bool
-  deriving Inhabited
-
-/-- the bundled register model (lcm/porcupine/etcd.go:34-59) -/
-def etcd : Model Int Op Op where
-  init := -1000000
-  step st i o :=
-    if i.op = 0 then ((!o.ex && st == -1000000) || (o.ex && st == o.val) || o.unk, st)
-    else if i.op = 1 then (true, i.a1)
-    else ((i.a1 == st && o.ok) || (i.a1 != st && !o.ok) || o.unk, if i.a1 == st then i.a2 else st)
 
 def showStep (st : Int) (i o : Op) (r : Bool × Int) : String :=
   s!"{st}" ++ "{" ++ s!"op:{i.op} arg1:{i.a1} arg2:{i.a2}" ++ "}{" ++ s!"ok:{o.ok} exists:{o.ex} value:{o.val} unknown:{o.unk}" ++ "}>" ++ s!"{r.1}{r.2};"
